@@ -185,4 +185,70 @@ theorem runE6 : d5.1.mapSet P K1 (.child Y 0) d5.2 = .ok e6 := by
 theorem runE7 : e6.2.1.arrInsert X 1 (pl 2) e6.2.2 = .ok e7 := by
   rw [arrInsert_eq_S]; exact eq_okW _ (by decide)
 
+/-! ### Run A continued: other mutations through the handle of the detached `X` (from `c6`) -/
+
+/-- the value of `X` removed through its handle -/
+def c8 : Elem × World × Ctx := okE (c6.2.1.arrRemoveS X 0 c6.2.2)
+/-- the value of `X` overwritten through its handle -/
+def c9 : Elem × World × Ctx := okE (c6.2.1.arrSetS X 0 (pl 9) c6.2.2)
+/-- the type of `X` set through its handle -/
+def c10 : World × Ctx := okW (c6.2.1.setType X 5 c6.2.2)
+
+theorem runA8 : c6.2.1.arrRemove X 0 c6.2.2 = .ok c8 := by
+  rw [arrRemove_eq_S]; exact eq_okE _ (by decide)
+theorem runA9 : c6.2.1.arrSet X 0 (pl 9) c6.2.2 = .ok c9 := by
+  rw [arrSet_eq_S]; exact eq_okE _ (by decide)
+theorem runA10 : c6.2.1.setType X 5 c6.2.2 = .ok c10 := eq_okW _ (by decide)
+
+/-! ### Run C: a detached MAP root
+
+Root array `R`; map `M` inserted in slot 0 and given one entry through its handle (INLINED in `R`);
+`Array.Remove R 0` detaches `M` (its closure keeps naming `R`).  Then, through the handle of the
+detached `M`: `OrderedMap.Set M K1 …` (overwrite of the plain value) or `OrderedMap.Remove M K1`. -/
+
+def M : SlabID := ⟨1, 2⟩
+
+def g1 : SlabID × World × Ctx := w0.newArr 7 cx0
+def g2 : SlabID × World × Ctx := g1.2.1.newMap 8 5 g1.2.2
+def g3 : World × Ctx := okW (g2.2.1.arrInsertS R 0 (.child M 0) g2.2.2)
+def g4 : Option Elem × World × Ctx := okM (mapSetS g3.1 M K1 (pl 1) g3.2)
+/-- `M` removed from `R` -/
+def g5 : Elem × World × Ctx := okE (g4.2.1.arrRemoveS R 0 g4.2.2)
+/-- through the handle of the detached `M` -/
+def g6 : Option Elem × World × Ctx := okM (mapSetS g5.2.1 M K1 (pl 2) g5.2.2)
+def g7 : MKey × Elem × World × Ctx := okR (mapRemoveS g5.2.1 M K1 g5.2.2)
+
+theorem idsC : g1.1 = R ∧ g2.1 = M := by decide
+
+theorem okC1 : WorldOk' D g1.2.1 g1.2.2.ctr := (C10W.worldOk'_newArr D w0 7 cx0 okA0).1
+theorem okC2 : WorldOk' D g2.2.1 g2.2.2.ctr := (C10W.worldOk'_newMap D _ 8 5 _ okC1).1
+
+theorem runC3 : g2.2.1.arrInsert R 0 (.child M 0) g2.2.2 = .ok g3 := by
+  rw [arrInsert_eq_S]; exact eq_okW _ (by decide)
+
+theorem okC3 : WorldOk' D g3.1 g3.2.ctr ∧ HandleOk g3.1 M := by
+  have hv : WValOk g2.2.1 R (maxInlineArr g2.2.1.T) (.child M 0) :=
+    ⟨freshB_live (by decide), unrefB_sound (by decide), not_anc_of_fresh (by decide) (by decide), by decide⟩
+  obtain ⟨h1, _, h3, _, _⟩ := C10W.worldOk'_arrInsert D _ R 0 _ _ _ _ okC2
+    (HandleOk.root _ (unrefB_sound (by decide))) hv runC3
+  obtain ⟨a, a', e, _, _, _, _, _, hch⟩ := h3
+  exact ⟨h1, (hch M 0 rfl).2.1⟩
+
+theorem runC4 : g3.1.mapSet M K1 (pl 1) g3.2 = .ok g4 := by
+  rw [mapSet_eq_S]; exact eq_okM _ (by decide)
+
+theorem okC4 : WorldOk' D g4.2.1 g4.2.2.ctr := by
+  have hv : WValOk g3.1 M (maxInlineMapValue g3.1.T K1.size) (pl 1) := ⟨⟨by decide, 1, rfl⟩, by decide⟩
+  exact (C10W.worldOk'_mapSet D _ M K1 _ _ _ _ _ okC3.1 okC3.2 keyOk_K1 hv runC4).1
+
+theorem runC5 : g4.2.1.arrRemove R 0 g4.2.2 = .ok g5 := by
+  rw [arrRemove_eq_S]; exact eq_okE _ (by decide)
+
+theorem handleR4 : HandleOk g4.2.1 R := HandleOk.root _ (unrefB_sound (by decide))
+
+theorem runC6 : g5.2.1.mapSet M K1 (pl 2) g5.2.2 = .ok g6 := by
+  rw [mapSet_eq_S]; exact eq_okM _ (by decide)
+theorem runC7 : g5.2.1.mapRemove M K1 g5.2.2 = .ok g7 := by
+  rw [mapRemove_eq_S]; exact eq_okR _ (by decide)
+
 end Atree.C11Scenario
